@@ -300,7 +300,7 @@ def aux_prebuild():
     from concurrent.futures import ThreadPoolExecutor
     jobs = [(n, std) for n in ("conv_grid", "archetypes", "noexcept_table") for std in ("11", "17", "20")]
     jobs += [("max_grid", "20"), ("cmp_grid", "17"), ("cmp_grid", "20"), ("real_types", "11"), ("real_types", "20"),
-             ("noexcept_table", "14")]
+             ("noexcept_table", "14"), ("huge_capacity", "20")]
     with ThreadPoolExecutor(max_workers=9) as ex:
         list(ex.map(lambda j: _aux_build_run(j[0], j[1]), jobs))
 
@@ -560,7 +560,25 @@ def c12(prop, tier, seed, known):
     v, c = run_aux(prop, "max_grid", ["20"] if q else ["11", "17", "20"], "MAXFAIL", "max.grid",
                    "max.grid_compile", "MAX", ("g++",) if q else ("g++", "clang++"))
     c["exhaustive_for"] = "8-bit size_type: every growing operation x start size in [0,max_size()] x count/length in [0,max_size()+3] U {254..258,300}"
-    return dict(coverage=dict(u8_grid=c, extra_evaluations=c["cases"]), violations=v)
+    hv, hc = huge(prop, tier)
+    return dict(coverage=dict(u8_grid=c, capacities_beyond_2_32=hc, extra_evaluations=c["cases"] + hc["cases"]),
+                violations=v + hv)
+
+
+def huge(prop, tier):
+    q = tier == "quick"
+    return run_aux(prop, "huge_capacity", ["20"] if q else ["11", "17", "20"], "HUGEFAIL",
+                   "steal.huge_capacity" if prop == "C09" else "max.huge_capacity",
+                   "steal.huge_compile" if prop == "C09" else "max.huge_compile", "HUGE",
+                   ("g++",) if q else ("g++", "clang++"))
+
+
+def c09(prop, tier, seed, known):
+    v, c = huge(prop, tier)
+    return dict(coverage=dict(capacities_beyond_2_32=c, extra_evaluations=c["cases"]), violations=v)
+
+
+SPECIALS["C09"] = c09
 
 
 def c16(prop, tier, seed, known):
